@@ -6,7 +6,8 @@
                                                    OCaml's own byte order on strings
      symtab R r.. F f.. Q q..              MODEL = symnums q (new_zlisp_symtab R F); SPEC = rank specification
                                            (3 + number of smaller builtin names) when F contains no null/nil
-     named D d.. S s=v ..                  MODEL = named_args_final D S; SPEC = the same on S reversed *)
+     named D d:t .. S s=v ..               MODEL = named_args_check D S (OK args in declared order | MISMATCH param);
+                                           SPEC = the same on S reversed *)
 open Model
 open Zutil
 
@@ -60,10 +61,16 @@ let () =
          Printf.printf "%s\t%s\t%s\n" id m s
        | "named" :: rest ->
          let secs = sections rest ["D"; "S"] in
-         let d = List.map bytes_of_hex (sec "D" secs) in
+         let tcode c = z_of_int (Char.code c) in
+         let d = List.map (fun t -> match String.split_on_char ':' t with
+                                    | [k; ty] -> (bytes_of_hex k, tcode ty.[0])
+                                    | [k] -> (bytes_of_hex k, tcode 'i') | _ -> failwith "bad declared") (sec "D" secs) in
          let s = List.map (fun t -> match String.split_on_char '=' t with
                                     | [k; v] -> (bytes_of_hex k, v) | _ -> failwith "bad named arg") (sec "S" secs) in
-         let show l = String.concat "" (List.map (function Some v -> v | None -> "?") l) in
-         Printf.printf "%s\t%s\t%s\n" id (show (named_args_final d s)) (show (named_args_final d (List.rev s)))
+         let tyof (v : string) = tcode v.[0] in
+         let show = function
+           | Inl p -> "MISMATCH " ^ hex_of_bytes p
+           | Inr l -> "OK " ^ String.concat "" (List.map (function Some v -> String.sub v 1 (String.length v - 1) ^ "," | None -> "?,") l) in
+         Printf.printf "%s\t%s\t%s\n" id (show (named_args_check tyof d s)) (show (named_args_check tyof d (List.rev s)))
        | _ -> failwith ("bad case: " ^ body))
     | _ -> failwith ("bad line: " ^ line))
